@@ -13,7 +13,8 @@ RULE = ('EX engine: ma(x,Q,M) for EVERY 0<Q<M<=Mmax and arma_estimate(x,P,Q,lag)
         'sequence), real and complex, N in {16,17,32,64}; classes parma, pma, pburg, pyule, pcovar, pmodcovar x NFFT in {16,17,64} x sampling alphabet: '
         'coefficient counts, invertibility (zeros of [1,b] inside the unit circle), positive finite variance, modified Yule-Walker least squares for P=Q against '
         'a dense reference on the double-loop unbiased autocorrelation, and PSD == (g*rho/fs)|B|^2/|A|^2 of the exposed coefficients. Distinct = digests of outputs')
-ASSUMPTIONS = ['non-degenerate data: noise-like families and ARMA-generated records only (exactly predictable records give a zero residual)',
+ASSUMPTIONS = ['arma_estimate / parma are judged for amplitudes whose eighth power is representable (mean power within 1e-70..1e70); ma / pma and the AR classes over 1e-120..1e120',
+               'non-degenerate data: noise-like families and ARMA-generated records only (exactly predictable records give a zero residual)',
                'besides the three stated inequalities the modified Yule-Walker system must be strictly over-determined: lag - Q > P',
                'modified Yule-Walker reference: least squares over lags Q+1..lag, tolerance 1e-8 * condition number (<= 1e8)',
                'PSD proportionality is checked with g = 2 for one-sided (real data) spectra and g = 1 for two-sided ones']
@@ -22,7 +23,7 @@ ASSUMPTIONS = ['non-degenerate data: noise-like families and ARMA-generated reco
 def bounds(tier):
     q = tier == 'quick'
     return {'N': [16, 17] if q else [16, 17, 32, 64], 'P,Q': '1..6', 'lag': 'every admissible value up to min(N-1, P+Q+8)', 'ma_M_max': 8 if q else 12,
-            'class_NFFT': [16, 17, 64], 'sampling': A.FS if not q else A.FS[:3]}
+            'class_NFFT': [16, 17, 64], 'long_records_N': [160] if q else [160, 300], 'representations': 'float64/complex128, int16, int64, float32/complex64, amplitudes 1e-120 and 1e120', 'sampling': A.FS if not q else A.FS[:3]}
 
 
 def expected_clauses(tier):
@@ -54,7 +55,8 @@ def records(N, cplx, tier):
     if tier == 'quick':
         fam = fam[:3]
     ints = [] if cplx else [r for r in A.pcm(N) if r[0] == 'pcm16_noise'] + A.pcm64(N)     # integer sample dtypes (noise-like records)
-    return fam + arma_records(N, cplx) + ints
+    # representation variants of the first noise-like record: single precision (float32 / complex64) and the far ends of the float range
+    return fam + arma_records(N, cplx) + ints + A.single(fam, 1) + A.extreme(fam, 1) + A.extreme(fam, 1, (1e-30, 1e30))
 
 
 def shards(tier):
@@ -66,13 +68,23 @@ def shards(tier):
             for P in range(1, 7):
                 out.append(('arma', N, cplx, P))
             out.append(('cls', N, cplx))
+    for N in ([160] if q else [160, 300]):
+        for cplx in (False, True):
+            out.append(('long', N, cplx))       # long records: an implementation may switch algorithm with the record length
     return out
 
 
 def run_shard(desc, R, tier):
     kind, N, cplx = desc[:3]
     recs = records(N, cplx, tier)
-    if kind == 'ma':
+    if kind == 'long':
+        for name, x in recs[:1] + arma_records(N, cplx)[:2]:
+            for P, Q in ((1, 1), (2, 2), (3, 3), (5, 5), (2, 1), (5, 2)):
+                for lag in (P + Q + 1, P + Q + 4, P + Q + 8):
+                    eval_point({'kind': 'arma', 'x': x, 'P': P, 'Q': Q, 'lag': lag, 'name': name}, R)
+            for Q, M in ((1, 4), (3, 10)):
+                eval_point({'kind': 'ma', 'x': x, 'Q': Q, 'M': M, 'name': name}, R)
+    elif kind == 'ma':
         mmax = min(N - 1, 8 if tier == 'quick' else 12)
         for name, x in recs:
             for M in range(2, mmax + 1):
@@ -95,6 +107,14 @@ def run_shard(desc, R, tier):
                             eval_point({'kind': 'cls', 'cls': cls, 'o': o, 'x': x, 'NFFT': nf, 'fs': fs, 'name': name}, R)
 
 
+def fourth_power_ok(x):
+    """arma_estimate fits an AR model to autocorrelation LAGS with the fast covariance recursion, which forms products of energies of
+    those lags: degree eight in the data amplitude.  The admissible amplitude range is the one whose eighth power is representable
+    (about 1e-37 .. 1e37; the pinned tree returns NaN or silently inaccurate coefficients outside it); ma() is of degree two."""
+    pw = float(np.mean(np.abs(A.prom(x)) ** 2))
+    return 1e-70 < pw < 1e70
+
+
 def in_arma_domain(N, P, Q, lag):
     return Q <= lag and lag + 2 * P - Q <= N and 2 * Q < N - P and lag - Q > P
 
@@ -106,6 +126,10 @@ def eval_point(pt, R):
     N = len(x)
     cplx = np.iscomplexobj(x)
     dt = 'complex' if cplx else 'real'
+    single = A.is_single(x)
+    u = 3e4 if single else 1.0            # float32 / complex64 records may be processed in single precision
+    if single:
+        dt += '-single'
     if kind == 'ma':
         Q, M = int(pt['Q']), int(pt['M'])
         if not (0 < Q < M < N):
@@ -130,6 +154,10 @@ def eval_point(pt, R):
             R.point(pt, indomain=False)
             R.skip('arma_domain')
             return
+        if not fourth_power_ok(x):
+            R.point(pt, indomain=False)
+            R.skip('eighth_power_of_amplitude_not_representable')
+            return
         feats = {'dtype': dt, 'solver': 'marple(P<=4)' if P <= 4 else 'lstsq(P>4)'}
         # reference modified Yule-Walker system (P == Q): rows m = Q+1..lag
         r = rc.correlation(A.prom(x), A.prom(x), lag, 'unbiased')
@@ -140,7 +168,7 @@ def eval_point(pt, R):
             rhs = -np.array([r[m] for m in rows])
             sv = np.linalg.svd(Mx, compute_uv=False)
             cond = sv[0] / sv[-1] if sv[-1] > 0 else np.inf
-            if cond > 1e8:
+            if cond > (1e3 if single else 1e8):
                 R.point(pt, indomain=False)
                 R.skip('myw_ill_conditioned')
                 return
@@ -158,13 +186,17 @@ def eval_point(pt, R):
                 [len(a), len(b), mr, rho], [P, Q, '<1', '>0'], 'arma_estimate: wrong coefficient counts, MA zero outside the unit circle or non-positive variance',
                 outs=(a, b, rho))
         if ref_a is not None and a.shape == (P,):
-            R.check(close(a, ref_a, 1e-8 * cond, 1e-9), 'arma_myw', feats, pt, a, ref_a,
+            R.check(close(a, ref_a, 1e-8 * cond * u, 1e-9 * u), 'arma_myw', feats, pt, a, ref_a,
                     'AR part != least-squares solution of the modified Yule-Walker equations over unbiased lags Q+1..lag', err=relerr(a, ref_a))
     else:
         cls, o, nf, fs = pt['cls'], pt['o'], int(pt['NFFT']), float(pt['fs'])
         if cls == 'parma' and not in_arma_domain(N, o['P'], o['Q'], o['lag']):
             R.point(pt, indomain=False)
             R.skip('arma_domain')
+            return
+        if cls == 'parma' and not fourth_power_ok(x):
+            R.point(pt, indomain=False)
+            R.skip('eighth_power_of_amplitude_not_representable')
             return
         feats = {'cls': cls, 'dtype': dt, 'nfft': 'odd' if nf % 2 else 'even'}
         R.point(pt)
